@@ -17,7 +17,7 @@ struct Keeper {
     explicit Keeper(tbb::task_arena& a, int burst_ = 4, unsigned pause_us_ = 50) : arena(a), burst(burst_), pause_us(pause_us_) {
         th = std::thread([this] {
             while (!stop.load(std::memory_order_relaxed)) {
-                suspend_gate();   // let the process go quiet while the watchdog decides whether it is stuck
+                suspend_gate(&stop);   // let the process go quiet while the watchdog decides whether it is stuck
                 // do not flood: keep at most a few hundred tasks outstanding
                 if (enq.load(std::memory_order_relaxed) - ran.load(std::memory_order_relaxed) < 256)
                     for (int i = 0; i < burst; i++) { enq.fetch_add(1, std::memory_order_relaxed); arena.enqueue([this] { spin_iters(300); ran.fetch_add(1, std::memory_order_release); }); }
@@ -26,7 +26,7 @@ struct Keeper {
         });
     }
     ~Keeper() {
-        stop.store(true); th.join();
+        stop.store(true); gate_wake(); th.join();   // the keeper may be parked at the gate (a join without the wake-up deadlocked under heavy load)
         // drain: the tasks reference this object
         double t0 = now_s();
         while (ran.load(std::memory_order_acquire) < enq.load() && now_s() - t0 < 60) sleep_us(200);
